@@ -269,6 +269,14 @@ def sendReply (b : LBuf) (rep : List Op) (errp : List (List Op)) : LBuf × Reply
     (e.1, if e.2 then .garbage else .exception appResponseTooLarge)
   else (r.1, .result)
 
+/-- `SendReply` through a *buffered* encoder (TJSONProtocol: a `bufio.Writer` inside the
+protocol) whose `Flush` failed: the writer keeps the error, so of the error reply only the
+response header — written directly to the transport (`hdr`) — reaches the buffer. Describes
+known finding `json-sticky-writer`; the harness does not generate this class. -/
+def sendReplySticky (b : LBuf) (rep : List Op) (hdr : Op) : LBuf × ReplyKind :=
+  let r := b.runStop rep
+  if r.2 then ((r.1.apply hdr).1, .garbage) else (r.1, .result)
+
 /-- `processReply`: a REPLY is read into the result; an EXCEPTION of application type
 100 becomes transport exception 101, any other application exception is returned as is. -/
 def processReply : ReplyKind → Option CallErr
